@@ -48,29 +48,24 @@ Definition enc_expect1 (e : expect1) : list Z :=
 
 Definition mk_world (classes : list (nat * option (list val) * list nat)) (table : list (string * aent)) : world :=
   {| w_classes := map (fun t => (fst (fst t), {| c_own_ob := snd (fst t); c_mro := snd t |})) classes;
-     w_attrs := table |}.
+     w_attrs := table;
+     w_mixin := 1 |}.     (* the harness numbers GenericMixin 1 *)
 
 Definition bz (b : bool) : Z := if b then 1 else 0.
 
 (* Part A.  op 0: type_vars, 1: type_var.  oc: arguments of __orig_class__ when the instance has one.
    model outcome ++ demanded outcome ++ [does the class layout have the shape the driver says;
    does the model outcome meet the demand] *)
-(* full = true: the driver says the layout has the shape of the *full* statement (parametrised non-mixin bases in
-   front of the binding base allowed; the mixin is class 1 of the harness' numbering) *)
-Definition shape_check (full : bool) (w : world) (c : nat) (o : option val) (s : shape) : bool :=
-  if full then match s with ShBinding ts xs => binding_subclass_full_b 1 w c ts xs | _ => false end
-  else shape_holds_b w c o s.
-
 Definition eval_case_tv (classes : list (nat * option (list val) * list nat)) (c : nat) (oc : option (list val))
-           (op : nat) (s : shape) (full : bool) : list Z :=
+           (op : nat) (s : shape) : list Z :=
   let w := mk_world classes [] in
   let o := match oc with Some xs => Some (VAlias (VCls c) xs) | None => None end in
   let self := VInst c o in
   match op with
   | O => let r := call_n progs w no_ext FUEL "type_vars" [self] in
-         enc_outcome r ++ enc_expect (spec_type_vars s) ++ [bz (shape_check full w c o s); bz (meets r (spec_type_vars s))]
+         enc_outcome r ++ enc_expect (spec_type_vars s) ++ [bz (shape_holds_b w c o s); bz (meets r (spec_type_vars s))]
   | _ => let r := call_n progs w no_ext FUEL "type_var" [self] in
-         enc_outcome r ++ enc_expect1 (spec_type_var s) ++ [bz (shape_check full w c o s); bz (meets1 r (spec_type_var s))]
+         enc_outcome r ++ enc_expect1 (spec_type_var s) ++ [bz (shape_holds_b w c o s); bz (meets1 r (spec_type_var s))]
   end.
 
 (* Part B *)
@@ -112,7 +107,7 @@ Fixpoint decos_journal (fd : fundef) (cur : val) (ds : list deco) : journal :=
 Definition def_journal (fd : fundef) (m : mdef) : journal :=
   match m_wrap m with
   | WPlain => decos_journal fd (VObj (m_id m) []) (m_inner m ++ m_outer m)
-  | WGetter _ => decos_journal fd (VObj (m_id m) []) (m_inner m) ++ decos_journal fd (VTok 0) (m_outer m)
+  | WGetter _ | WProperty _ => decos_journal fd (VObj (m_id m) []) (m_inner m) ++ decos_journal fd (VTok 0) (m_outer m)
   | _ => decos_journal fd (VObj (m_id m) []) (m_inner m) ++ decos_journal fd (VObj 0 []) (m_outer m)
   end.
 
@@ -127,13 +122,12 @@ Fixpoint first_per_id (seen : list nat) (cd : list mdef) : list mdef :=
    [1; code]                         get_decorated_functions raised
    [0; n; n x (member; k; k x (id; v))]   the result
    then per member of ms the demanded pairs [k; k x (id; v)], then
-   [in the domain of the statement; no raising property; no decorated dunder name; spec verdict on the model],
-   then the journal [n; n x 5 numbers] *)
+   [claimed; no decorated dunder name; spec verdict on the model], then the journal [n; n x 5 numbers] *)
 Definition eval_case_dm (classes : list (nat * option (list val) * list nat)) (c : nat)
            (ms : list string) (cd : list mdef) : list Z :=
   let demanded := flat_map (fun t => enc_pairs (decorated cd t)) ms in
   let jn := flat_map (def_journal prog_decorator_fun) (first_per_id [] cd) in
-  let tail r := demanded ++ [bz (in_domain cd); bz (no_raising_getter cd); bz (no_decorated_dunder cd); bz (spec_decorated_ok ms cd r)]
+  let tail r := demanded ++ [bz (claimed cd); bz (no_decorated_dunder cd); bz (spec_decorated_ok ms cd r)]
                 ++ Z.of_nat (List.length jn) :: flat_map (enc_call ms) jn in
   match build_table prog_decorator_fun cd with
   | Raise e => [3; exn_code e] ++ tail (Raise e)
